@@ -182,8 +182,28 @@ class Scenario:
             elif td == "vanish":
                 origin.raw_endpoint.close()
             self.info["flights"] = w.net.seq - start
+            t_td = loop.time()
+            if not c["faults"] and race is None and td in ("originator", "relay0", "relay1", "exit") and \
+                    x.state in ("READY", "CLOSING") and len(x_ids) == hops and not c.get("demand"):
+                # nothing is lost and the destroy message arrives everywhere: every node drops X's entries through the
+                # destroy message, i.e. one linger period after the teardown - it does not take the inactivity limits
+                x_socks = [t for nd in path for cid in x_ids.get(nd.idx, []) if cid in nd.overlay.exit_sockets
+                           for t in (nd.overlay.exit_sockets[cid].transport_ipv4, nd.overlay.exit_sockets[cid].transport_ipv6)
+                           if t is not None]
+                await asyncio.sleep(st.remove_tunnel_delay + 1.0)
+                left = [(nd.idx, name, cid) for nd in path for cid in x_ids.get(nd.idx, [])
+                        for tbl, name in ((nd.overlay.relay_from_to, "relays"), (nd.overlay.exit_sockets, "exits"))
+                        if cid in tbl]
+                if x.circuit_id in origin.overlay.circuits:
+                    left.append((origin.idx, "circuits", x.circuit_id))
+                if left:
+                    self.fail("R3", "destroy_not_followed", f"teardown={td} with no message lost: "
+                              f"{st.remove_tunnel_delay + 1:.0f} s later the destroy has not removed {left}")
+                if any(not t.closed for t in x_socks):
+                    self.fail("R3", "destroy_not_followed:socket", f"teardown={td} with no message lost: "
+                              f"{st.remove_tunnel_delay + 1:.0f} s later an outside socket of X's exit is still open")
             # U keeps carrying data during the whole period
-            t_end = loop.time() + D
+            t_end = t_td + D
             while loop.time() < t_end:
                 await asyncio.sleep(10.0)
                 if u.state == "READY":
